@@ -394,3 +394,8 @@ PROPS["C06"]["explanation"] += " Also: building the handles (get_degrees_of_free
 # `circle --potential LJ` to the hard-disc model)
 PROPS["C13"]["units"] = list(PROPS["C13"]["units"]) + ["cli"]
 PROPS["C03"]["units"] = list(PROPS["C03"]["units"]) + (["cli"] if "cli" not in PROPS["C03"]["units"] else [])
+# Every unit that carries a clause tagged for a property is built by that property's check (tools/deadtags.py lists tags that are not):
+# a tag in a unit the property never builds would be dead text.
+for _p, _us in {"C01": ["opt"], "C04": ["state"], "C05": ["cli"], "C10": ["geom"], "C12": ["geom"], "C13": ["geom"], "C14": ["state"], "C15": ["state"],
+                "C16": ["geom"], "C18": ["cli"], "C19": ["cli"], "C20": ["state"]}.items():
+    PROPS[_p]["units"] = list(PROPS[_p].get("units", [])) + [u_ for u_ in _us if u_ not in PROPS[_p].get("units", [])]
